@@ -65,7 +65,7 @@ VP0, VP1 = '\x01', '\x02'      # placeholder brackets for VARPTR$(name) inside a
 
 
 def quick_runs(prop):
-    return 2500
+    return 12000
 
 
 ###############################################################################
@@ -151,6 +151,12 @@ class RefPlayer(object):
                 j += 1
             txt = ''.join(s[i[0]:j])
             i[0] = j
+            k = j
+            while k < len(s) and s[k] == ' ':
+                k += 1
+            if k > j and k < len(s) and s[k].isdigit():
+                # digits, blanks, digits: one number or a number and a stray digit? not specified
+                raise MalformedMML('unspecified-blank-in-number')
             return txt
 
         def number():
@@ -357,7 +363,7 @@ def _token(rng, speed):
 
 MALFORMED = [
     ('H', 'unknown-command'), ('Q4', 'unknown-command'), ('V8', 'unknown-command'), ('!', 'unknown-command'),
-    ('R', 'unknown-command'), ('8', 'unknown-command'), ('Z', 'unknown-command'), ('#', 'unknown-command'),
+    ('R', 'unknown-command'), ('Z', 'unknown-command'), ('#', 'unknown-command'),
     ('L0', 'range'), ('L65', 'range'), ('L255', 'range'), ('T31', 'range'), ('T256', 'range'), ('T0', 'range'),
     ('O7', 'range'), ('O9', 'range'), ('N85', 'range'), ('N255', 'range'), ('C65', 'range'), ('G#100', 'range'),
     ('P65', 'range'), ('P', 'missing-number'), ('L', 'missing-number'), ('T', 'missing-number'), ('O', 'missing-number'),
@@ -509,7 +515,7 @@ def _body(run):
             return [e for e in queue if e > now]
 
         def resync():
-            r = d.exec(b(('PLAY "%s"' % ref.defaults_string())))
+            r = d.exec(b(('PLAY "%s"' % ref.defaults_string())), poll_cap=400000)
             if r.err is not None:
                 run.violate('C42', 'wellformed-rejected:state-commands', 'PLAY "%s" -> %r' % (ref.defaults_string(), r))
             ref.reset()
@@ -593,7 +599,7 @@ def _body(run):
                     run.violate('C42', 'wrong-error', '%r -> %r' % (_statement(mml), r))
                 elif err is None and r.err == 5:
                     run.violate('C42', 'wellformed-rejected', '%r -> Illegal function call; reference sees %d tones' % (_statement(mml), len(want)))
-                elif err is not None and err != 'unspecified-semicolon' and r.err is None and not fired:
+                elif err is not None and not err.startswith('unspecified') and r.err is None and not fired:
                     run.violate('C42', 'malformed-accepted:' + err, '%r (variables %r) -> no error, expected Illegal function call' % (_statement(mml), variables))
                 # ---- tones -----------------------------------------------------------------
                 if err is None and r.err is None and not fired:
@@ -616,6 +622,8 @@ def _body(run):
                         run.violate('C42', 'tones-mismatch:%s:%s' % (bad[0], 'foreground' if before[0] else 'background'),
                                     '%r with variables %r, state before %r: %s\nengine   %r\nreference %r' % (
                                         _statement(mml), variables, before, bad[1], got[:12], want[:12]))
+                elif err is not None and err.startswith('unspecified'):
+                    run.probe('unspecified-shape-statements')
                 else:
                     run.probe('malformed-statements' if err is not None else 'interrupted-statements')
                     # whatever was emitted must be a prefix of what the string specifies before the error
@@ -624,10 +632,13 @@ def _body(run):
                         run.violate('C42', 'tones-before-error-not-a-prefix',
                                     '%r: engine emitted %r, reference prefix %r' % (_statement(mml), got[:12], want[:12]))
                 # ---- liveness ---------------------------------------------------------------
+                if op.get('break_at') is not None and c1 > c0 + int(op['break_at'] * 1e6) + slack_us:
+                    # the statement was still running a tick after Ctrl-Break was pressed
+                    run.violate('C42', 'liveness:break-ignored',
+                                'Break pressed at +%.3f s (%s), PLAY returned at +%.3f s' % (
+                                    op['break_at'], 'seen by the engine at +%.3f s' % ((fired[0] - c0) / 1e6) if fired else 'never polled',
+                                    (c1 - c0) / 1e6))
                 if fired:
-                    if c1 > fired[0] + slack_us and c1 - c0 > slack_us:
-                        run.violate('C42', 'liveness:break-ignored',
-                                    'Break at +%.3f s, PLAY returned at +%.3f s' % ((fired[0] - c0) / 1e6, (c1 - c0) / 1e6))
                     del queue[:]
                     timing[0] = True
                 elif r.err is None and err is None and timing[0]:
